@@ -156,7 +156,9 @@ impl Monitor for C17 {
         let safe = format != "json" && rng.chance(2, 3);
         let ncols = 1 + rng.below(6);
         let lone_input = format == "text" && rng.chance(1, 6);
-        let columns: Vec<String> = if lone_input { vec!["input".into()] } else { (0..ncols).map(|i| match rng.below(6) { 0 => format!("p{}", i), 1 => format!("col{}", i), 2 => format!("t.c{}", i), 3 => format!("count{}", i), 4 => format!("x{}_y", i), _ => format!("c{}", i) }).collect() };
+        // a lone column whose name merely resembles `input` is an ordinary column (`Input: value`)
+        let near_input = !lone_input && ncols == 1 && rng.chance(1, 3);
+        let columns: Vec<String> = if lone_input { vec!["input".into()] } else if near_input { vec![rng.pick(&["Input", "INPUT", "iNPUT", "input_", "xinput", "inputs", "t.input", " input"]).to_string()] } else { (0..ncols).map(|i| match rng.below(6) { 0 => format!("p{}", i), 1 => format!("col{}", i), 2 => format!("t.c{}", i), 3 => format!("count{}", i), 4 => format!("x{}_y", i), _ => format!("c{}", i) }).collect() };
         let nres = 1 + rng.below(4);
         let results: Vec<Vec<Vec<J>>> = (0..nres).map(|_| { let nrows = rng.below(6); (0..nrows).map(|_| (0..columns.len()).map(|_| if lone_input { json!(["text", *rng.pick(SAFE_TEXT)]) } else { gen_value(rng, safe) }).collect()).collect() }).collect();
         json!({"kind": "print", "format": format, "single": rng.chance(1, 2), "columns": columns, "results": results})
